@@ -242,6 +242,33 @@ CLAIMED['C09'] = dict(
           'NaN/Inf freedom in binary64 is explored, not proved; 3 known findings (listed in known_findings.json).'),
     design='6/C09', technique='Coq proof over Reals/Coquelicot + in-Coq differential correspondence + predicate search')
 
+CLAIMED['C04'] = dict(
+    text=('Theorems over the real-number instance of the Gallina model (Model/Trainers.v, Posterior.v, Mixture.v, EM.v): '
+          'normalisation of a scaled frame is a unit phasor times the normalised frame (both guard styles); scatter, the '
+          'covariance steps, the cACG quadratic form/log-pdf and the Watson/Bingham exponents are invariant under unit phasors; '
+          'hence E-step and M-step (the matrix handed to eigh is EQUAL; eigh/spline/least_squares/log-normalisers are '
+          'universally quantified oracles) and, by the simulation lemma, the whole EM trajectory, predict and log-likelihood are '
+          'equal for y and c.y for every gain field without zeros, every start, option and iteration count: cACGMM, spatial '
+          'stream of GCACGMM/vMF-cACGMM, cWMM, cBMM; vMF/vMFMM/embedding stream under positive real gains; a witness that the '
+          'former unnormalised vMF-cACGMM M-step (repaired a5637f0) was not invariant. Raw ComplexWatson/ComplexBingham.log_pdf: '
+          'phase gains only. Tie to /repo on every run: metamorphic predicates (|c| 1e-100..1e100) on component log_pdfs, single '
+          'trainers and the six directional mixtures (1..5 iterations, all options, three start kinds), plus in-Coq comparison '
+          'of normalisation, quadratic form, eigh input, Watson/Bingham/vMF log-pdf on y and c.y. "Up to rounding" is measured '
+          '(1e-9; condition-scaled for floored spectra; 1e-6 for cBMM after fitting), not proved.'),
+    design='6/C04', technique='Coq proof over Reals/Coquelicot + simulation lemma + in-Coq differential correspondence + metamorphic predicates')
+CLAIMED['C05'] = dict(
+    text=('Theorems (real instance): class-axis sum and maximum are invariant under any permutation of the class indices; the '
+          'posterior column (plain and clipped, with mask), all four weight rules and the class-wise M-step commute with '
+          'relabelling; by the simulation lemma fit n and predict of the relabelled start/mask equal the relabelled fit for every '
+          'n and every class-wise trainer (all seven are instances; cACGMM instance fully discharged). With an inline aligner / '
+          'inline alignment: proved only along runs whose aligned E-step commutes with relabelling on tie-free states '
+          '(C05_fit_perm_aligner_partial); that the pb_bss aligners satisfy this is not proved. Tie to /repo on every run: '
+          'relabelled-vs-original fits for all 7 trainers x options, all K! permutations (K<=4, thorough), iterations 1..20, every '
+          'parameter / in-loop affiliation / posterior at 1e-9 (condition-scaled; ill-conditioned trajectories identified by a '
+          '1e-13 perturbation probe are excluded and counted), aligner stream with tie detection; in-Coq comparison of relabelled '
+          'posterior columns and weight updates.'),
+    design='6/C05', technique='Coq proof (Permutation, Reals) + simulation lemma + in-Coq differential correspondence + metamorphic predicates')
+
 NOT_YET = {}
 
 
